@@ -81,15 +81,15 @@ def has_helper(t):
     return t[1].startswith('__') or any(has_helper(c) for c in t[2])
 
 
-def check_pair(ctx, kind, n, m, op, parser, lexer, ks, rep=None):
+def check_pair(ctx, kind, n, m, op, parser, lexer, ks, rep=None, build_budget=60_000_000):
     rep = rep or (op if op in ('?', '*', '+') else ('~%d' % n if n == m and ctx.rng.random() < 0.7 else '~%d..%d' % (n, m)))
     text, per = grammar(kind, rep)
     lo, hi = {'?': (0, 1), '*': (0, 10 ** 9), '+': (1, 10 ** 9)}.get(op, (n, m))
     opts = {'parser': parser, 'lexer': lexer}
     if kind == 'template-arg':
         text = text.replace('rep{X}', '_rep{X}')
-    st, l = build(ctx, text, budget=60_000_000, **opts)
-    case0 = {'kind': kind, 'n': n, 'm': m, 'op': op, 'rep': rep, 'parser': parser, 'lexer': lexer, 'grammar': text}
+    st, l = build(ctx, text, budget=build_budget, **opts)
+    case0 = {'kind': kind, 'n': n, 'm': m, 'op': op, 'rep': rep, 'parser': parser, 'lexer': lexer, 'grammar': text, 'build_budget': build_budget}
     if st != 'ok':
         if st == 'wall':
             ctx.inconc('wall guard in construction', case0)
@@ -201,7 +201,8 @@ def run_batch(ctx):
                 check_pair(ctx, kind, 0, 0, op, parser, lexer, [0, 1, 2, 3, 7, 20])
         # a group with alternatives below the factoring threshold: k**n expansions if the copies are multiplied out
         n, m = [(20, 20), (16, 24), (40, 40), (30, 49), (12, 13), (49, 49), (0, 30), (24, 25)][ctx.batch % 8]
-        check_pair(ctx, 'alt-group', n, m, '~', ['lalr', 'earley'][ctx.batch % 2], ['contextual', 'basic'][ctx.batch % 2], ks_for(n, m, rng))
+        check_pair(ctx, 'alt-group', n, m, '~', ['lalr', 'earley'][ctx.batch % 2], ['contextual', 'basic'][ctx.batch % 2], ks_for(n, m, rng),
+                   build_budget=4_000_000)      # a handful of rules: a construction that needs more steps is multiplying something out
         ctx.count('alt-group-below-factoring-threshold')
     else:
         # every 0<=n<=m<=140 for LALR+terminal, split over the batches
@@ -250,10 +251,10 @@ def replay(ctx, case):
     # depends on what was compiled before (memoised factorisations, shared helper caches) must reproduce here
     ks = [case['k']] if case.get('k') is not None else []
     for _ in range(3):
-        check_pair(ctx, case['kind'], case['n'], case['m'], case['op'], case['parser'], case['lexer'], ks, case.get('rep'))
+        check_pair(ctx, case['kind'], case['n'], case['m'], case['op'], case['parser'], case['lexer'], ks, case.get('rep'), build_budget=case.get('build_budget', 60_000_000))
     if case['op'] == '~':
         for dn, dm in ((0, 1), (1, 1), (0, -1), (2, 2)):
             if 0 <= case['n'] + dn <= case['m'] + dm:
-                check_pair(ctx, case['kind'], case['n'] + dn, case['m'] + dm, '~', case['parser'], case['lexer'], [], case.get('rep'))
+                check_pair(ctx, case['kind'], case['n'] + dn, case['m'] + dm, '~', case['parser'], case['lexer'], [], None, build_budget=case.get('build_budget', 60_000_000))
         for _ in range(2):
-            check_pair(ctx, case['kind'], case['n'], case['m'], case['op'], case['parser'], case['lexer'], ks, case.get('rep'))
+            check_pair(ctx, case['kind'], case['n'], case['m'], case['op'], case['parser'], case['lexer'], ks, case.get('rep'), build_budget=case.get('build_budget', 60_000_000))
